@@ -20,7 +20,7 @@ def costs_text(ctx):
               "let __it1 = max_day_costs.max_costs_by_day.iter();\n    for (day, day_cost) in __it1 {", 'R18')
     c.replace("for (year, date) in max_cost_day_for_year {",
               "let __it2 = max_cost_day_for_year.iter();\n    for (__y, __d) in __it2 {\n        let year = *__y; let date = *__d;", 'R20')
-    c.drop_rx(r'(?m)^impl Costs \{', why='(sorted_years: rendering helper, keys().map().collect() chain)')
+    c.replace("let mut years: Vec<i32> = self.yearly.keys().map(|y| *y).collect();", "let mut years: Vec<i32> = hole_year_keys_costs(&self.yearly);", 'H')
     return c
 
 
